@@ -4,8 +4,10 @@
     width [k] = 32 / 64: values are handled as [k]-bit patterns with explicit
     wrap-around; blocks of 128 values, 4 mini-blocks of 32, the deltas and the
     minimum are computed over the zero-padded block exactly as the Go code
-    does.  [dec k] is a decoder written from Encodings.md for any block size
-    and mini-block count.  No proofs here (Enc/DeltaBPProofs.v). *)
+    does.  [enc_g bs nmb k xs] is the same encoder for any block size and
+    mini-block count ([enc] = [enc_g 128 4]).  [dec k] is a decoder written
+    from Encodings.md for any block size and mini-block count.  No proofs here
+    (Enc/DeltaBPProofs.v). *)
 From Coq Require Import List NArith ZArith Lia Bool Arith.
 From PQ Require Import Base.Bytes Base.Varint Base.BitPack Generated.Consts.
 Import ListNotations.
@@ -47,40 +49,64 @@ Definition width_of (g : list N) : N := fold_left N.max (map bitlen g) 0.
 
 Definition pad_to {A} (n : nat) (d : A) (l : list A) : list A := l ++ repeat d (n - length l).
 
-(* one block: chunk = the (up to 128) values of this block as patterns *)
-Definition enc_block (k : N) (last : N) (chunk : list N) : bytes :=
-  let block := pad_to block_size 0 chunk in
+(** The encoder is parametric in the geometry of the page -- [bs] values per
+    block, [nmb] mini-blocks per block, [vpm] = [bs / nmb] values per
+    mini-block -- which the format leaves to the writer (block size a multiple
+    of 128, mini-block size a multiple of 32) and writes in the header.  Go
+    writes 128 / 4 ([enc]); other writers choose otherwise (parquet-rs: 256 / 4
+    for INT64), and every decoder must follow the header ([enc_g] is what the
+    harness feeds Go's decoders with, for every legal geometry in a range). *)
+
+(* one block: chunk = the (up to [bs]) values of this block as patterns *)
+Definition enc_block_g (bs nmb vpm : nat) (k : N) (last : N) (chunk : list N) : bytes :=
+  let block := pad_to bs 0 chunk in
   let deltas := block_delta k last block in
   let m := block_min k deltas in
   let subd := map (fun d => subk k d m) deltas in
-  let cleared := pad_to block_size 0 (firstn (length chunk) subd) in
-  let groups := chunks num_mini_blocks mini_block_size cleared in
+  let cleared := pad_to bs 0 (firstn (length chunk) subd) in
+  let groups := chunks nmb vpm cleared in
   varint64 (sintZ k m) ++ map width_of groups
     ++ concat (map (fun g => pack_bytes (width_of g) g) groups).
 
-Fixpoint enc_blocks (fuel : nat) (k : N) (last : N) (rest : list N) : bytes :=
+Fixpoint enc_blocks_g (bs nmb vpm : nat) (fuel : nat) (k : N) (last : N) (rest : list N) : bytes :=
   match fuel with
   | O => []
   | S f =>
       match rest with
       | [] => []
       | _ =>
-          let chunk := firstn block_size rest in
-          enc_block k last chunk
-            ++ enc_blocks f k (List.last chunk last) (skipn block_size rest)
+          let chunk := firstn bs rest in
+          enc_block_g bs nmb vpm k last chunk
+            ++ enc_blocks_g bs nmb vpm f k (List.last chunk last) (skipn bs rest)
       end
   end.
 
 (** patterns of the signed inputs *)
-Definition enc (k : N) (xs : list Z) : bytes :=
+Definition enc_g (bs nmb : nat) (k : N) (xs : list Z) : bytes :=
   let ps := map (wrapZ k) xs in
   let first := match xs with [] => 0%Z | x :: _ => x end in
-  uvarint64 (N.of_nat block_size) ++ uvarint64 (N.of_nat num_mini_blocks)
+  uvarint64 (N.of_nat bs) ++ uvarint64 (N.of_nat nmb)
     ++ uvarint64 (N.of_nat (length xs)) ++ varint64 first
     ++ match ps with
        | [] => []
-       | p :: rest => enc_blocks (length rest) k p rest
+       | p :: rest => enc_blocks_g bs nmb (bs / nmb) (length rest) k p rest
        end.
+
+(** the geometries the round-trip theorems cover: [nmb] mini-blocks of
+    [bs / nmb] values, a multiple of 8 (so that a mini-block is a whole number
+    of bytes at every bit width) ... *)
+Definition legal_geometry (bs nmb : nat) : Prop :=
+  (0 < nmb)%nat /\ bs = (nmb * (bs / nmb))%nat /\ (0 < bs / nmb)%nat
+  /\ N.of_nat (bs / nmb) mod 8 = 0 /\ N.of_nat bs < 2 ^ 64.
+
+(** ... which include every geometry the format allows: a block size that is a
+    multiple of 128, divided into mini-blocks whose size is a multiple of 32 *)
+Definition format_geometry (bs nmb : nat) : Prop :=
+  (0 < bs)%nat /\ (0 < nmb)%nat /\ (bs mod 128 = 0)%nat /\ (bs mod nmb = 0)%nat
+  /\ ((bs / nmb) mod 32 = 0)%nat /\ N.of_nat bs < 2 ^ 64.
+
+(** Go's encoder (encodeInt32Default / encodeInt64Default): 128 / 4 *)
+Definition enc (k : N) (xs : list Z) : bytes := enc_g block_size num_mini_blocks k xs.
 
 (** * Decoder from the specification *)
 
